@@ -634,7 +634,8 @@ func runFrame(fr *frame) {
 		}
 		p := recover()
 		if debugStacks && !fr.i.stackPrinted {
-			if _, isTarget := p.(targetPanic); !isTarget {
+			_, isEnd := p.(vmPathEnd)
+			if _, isTarget := p.(targetPanic); !isTarget && !isEnd {
 				fr.i.stackPrinted = true
 				fmt.Fprintf(os.Stderr, "VM PANIC %T %v\n%s\n", p, p, debug.Stack())
 				for f := fr; f != nil; f = f.caller {
